@@ -495,8 +495,8 @@ TOPLEVEL = [
                  "self.minPossibleTemperature[0]"),
     ("verbatim", "keepMaxFlag = self.maxPossibleTemperature[1] and TMax >= "
                  "self.maxPossibleTemperature[0]"),
-    ("verbatim", "TMin = max(self.minPossibleTemperature[0], TMin)"),
-    ("verbatim", "TMax = min(self.maxPossibleTemperature[0], TMax)"),
+    ("verbatim", "TMin = min(max(self.minPossibleTemperature[0], TMin), T0)"),
+    ("verbatim", "TMax = max(min(self.maxPossibleTemperature[0], TMax), T0)"),
     ("verbatim", "scipyKwargs = {'rtol': rTol, 'atol': tolAbsolute, 'max_step': dT, "
                  "'first_step': None if phaseTracerFirstStep is None else "
                  "phaseTracerFirstStep * dT}"),
@@ -835,11 +835,11 @@ def gen_tracephase(src):
     # ---- clamping of the requested range -----------------------------------------------
     for nm in ("TMin", "TMax"):
         a = _only(top.get(nm, []), "assignment to " + nm)
-        tc = Tr({nm: (nm, "R")}, RANGES)
+        tc = Tr({nm: (nm, "R"), "T0": ("T0", "R")}, RANGES)
         v, ty = tc.expr(a.value)
         if ty != "R":
             err(a, "clamp")
-        out.append("Definition clamp_%s (st : ranges) (%s : R) : R := %s." % (nm, nm, v))
+        out.append("Definition clamp_%s (st : ranges) (%s T0 : R) : R := %s." % (nm, nm, v))
         if a.lineno > floop.lineno:
             err(a, "clamp after the loop")
     # ---- which previously set flags survive this call (evaluated BEFORE the clamps) --------
